@@ -37,6 +37,7 @@ type Graph struct {
 	named    []*types.Named // named types declared in repo packages
 	// Tables: package-level map[K]func variables -> functions stored in them by init, with constant keys.
 	Tables map[*ssa.Global][]TableEntry
+	fieldTypes map[*types.Var]*fieldTypeInfo
 }
 
 // TableEntry is one `key: fn` element of a package-level dispatch table.
@@ -423,6 +424,17 @@ func (g *Graph) CalleesAt(f *ssa.Function, call ssa.CallInstruction, feasible ma
 			return out
 		}
 		if it := ifaceOf(recvT); it != nil {
+			// field-sensitive refinement: the receiver is loaded from a field of a repository struct and every value
+			// ever stored to that field has a known concrete type (closed world over unexported struct types)
+			if ts, ok := g.fieldLoadTypes(cc.Value); ok {
+				for _, t := range ts {
+					ms := g.P.SSA.MethodSets.MethodSet(t)
+					if sel := ms.Lookup(cc.Method.Pkg(), cc.Method.Name()); sel != nil {
+						add(g.P.SSA.MethodValue(sel), "invoke-field")
+					}
+				}
+				return out
+			}
 			for _, fn := range g.implementers(it, cc.Method) {
 				add(fn, "invoke-cha")
 			}
@@ -713,4 +725,136 @@ func (g *Graph) Funcs() []*ssa.Function {
 	}
 	sort.Slice(out, func(i, j int) bool { return out[i].String() < out[j].String() })
 	return out
+}
+
+// fieldLoadTypes: if v is a load of an interface-typed field of an unexported repository struct, returns the concrete
+// types of all values stored to that field anywhere in the repository; ok=false when any store is opaque.
+func (g *Graph) fieldLoadTypes(v ssa.Value) ([]types.Type, bool) {
+	u, ok := v.(*ssa.UnOp)
+	if !ok || u.Op != token.MUL {
+		return nil, false
+	}
+	_, fv, ok := FieldAddrOf(u.X)
+	if !ok || fv.Pkg() == nil || !g.P.IsRepoPkg(fv.Pkg()) {
+		return nil, false
+	}
+	// owning struct must be an unexported named type (nobody outside the repository can assign the field)
+	if pt, ok := u.X.(*ssa.FieldAddr).X.Type().Underlying().(*types.Pointer); ok {
+		if n, ok := types.Unalias(pt.Elem()).(*types.Named); ok {
+			if n.Obj().Exported() {
+				return nil, false
+			}
+		} else {
+			return nil, false
+		}
+	}
+	if g.fieldTypes == nil {
+		g.fieldTypes = map[*types.Var]*fieldTypeInfo{}
+	}
+	if fi, ok := g.fieldTypes[fv]; ok {
+		return fi.types, fi.ok
+	}
+	fi := &fieldTypeInfo{ok: true}
+	g.fieldTypes[fv] = fi
+	seen := map[string]bool{}
+	nstores := 0
+	for _, fn := range g.P.RepoFuncs {
+		for _, b := range fn.Blocks {
+			for _, ins := range b.Instrs {
+				st, ok := ins.(*ssa.Store)
+				if !ok {
+					continue
+				}
+				_, sf, ok := FieldAddrOf(st.Addr)
+				if !ok || sf != fv {
+					continue
+				}
+				nstores++
+				ts, ok := g.concreteTypesOf(st.Val, 0)
+				if !ok {
+					fi.ok = false
+					return nil, false
+				}
+				for _, t := range ts {
+					k := types.TypeString(t, nil)
+					if !seen[k] {
+						seen[k] = true
+						fi.types = append(fi.types, t)
+					}
+				}
+			}
+		}
+	}
+	if nstores == 0 {
+		fi.ok = false
+	}
+	return fi.types, fi.ok
+}
+
+type fieldTypeInfo struct {
+	types []types.Type
+	ok    bool
+}
+
+// concreteTypesOf resolves the dynamic types an interface value may hold (MakeInterface, phi, results of repository functions).
+func (g *Graph) concreteTypesOf(v ssa.Value, depth int) ([]types.Type, bool) {
+	if depth > 6 {
+		return nil, false
+	}
+	switch x := v.(type) {
+	case *ssa.MakeInterface:
+		return []types.Type{x.X.Type()}, true
+	case *ssa.Const:
+		if x.Value == nil {
+			return nil, true
+		}
+	case *ssa.ChangeInterface:
+		return g.concreteTypesOf(x.X, depth+1)
+	case *ssa.Phi:
+		var out []types.Type
+		for _, e := range x.Edges {
+			ts, ok := g.concreteTypesOf(e, depth+1)
+			if !ok {
+				return nil, false
+			}
+			out = append(out, ts...)
+		}
+		return out, true
+	case *ssa.Extract:
+		if call, ok := x.Tuple.(*ssa.Call); ok {
+			return g.concreteResultTypes(call, x.Index, depth)
+		}
+	case *ssa.Call:
+		return g.concreteResultTypes(x, 0, depth)
+	}
+	if _, isIface := v.Type().Underlying().(*types.Interface); !isIface {
+		return []types.Type{v.Type()}, true
+	}
+	return nil, false
+}
+
+func (g *Graph) concreteResultTypes(call *ssa.Call, idx, depth int) ([]types.Type, bool) {
+	f := call.Call.StaticCallee()
+	if f == nil || len(f.Blocks) == 0 {
+		return nil, false
+	}
+	if _, isRepo := g.P.PkgOf(f); !isRepo {
+		return nil, false
+	}
+	var out []types.Type
+	for _, b := range f.Blocks {
+		if len(b.Instrs) == 0 {
+			continue
+		}
+		ret, ok := b.Instrs[len(b.Instrs)-1].(*ssa.Return)
+		if !ok || idx >= len(ret.Results) {
+			continue
+		}
+		ts, ok := g.concreteTypesOf(ret.Results[idx], depth+1)
+		if !ok {
+			return nil, false
+		}
+		out = append(out, ts...)
+	}
+	return out, true
 }
